@@ -153,6 +153,17 @@ static Paths64 run_real(const PolyInput& in, const Paths64& paths, const Params&
       co.Execute(d, tree);
       return PolyTreeToPaths64(tree);
     }
+    case 6: {  // parameters through the setters of a default-constructed object
+      ClipperOffset co; co.MiterLimit(ml); co.ArcTolerance(arc); co.ReverseSolution(pr.rev);
+      co.AddPaths(paths, jt, EndType::Polygon); co.Execute(d, sol); return sol;
+    }
+    case 7: {  // constructed with other parameters, executed, re-parameterised through the setters, executed again
+      ClipperOffset co(ml + 1.75, arc * 3 + 1.5, false, !pr.rev);
+      co.AddPaths(paths, jt, EndType::Polygon);
+      Paths64 junk; co.Execute(d, junk);
+      co.MiterLimit(ml); co.ArcTolerance(arc); co.ReverseSolution(pr.rev);
+      co.Execute(d, sol); return sol;
+    }
     default: {  // one group per polygon-with-holes
       ClipperOffset co(ml, arc, false, pr.rev);
       Paths64 g0, g1;
@@ -275,7 +286,7 @@ int main(int argc, char** argv) {
     pr.ml = pick_ml(g);
     pr.rev = g.chance(30);
     pr.negative_convention = g.chance(40);
-    pr.api = (int)(g.next() % 6);
+    pr.api = (int)(g.next() % 8);
     pr.pointless_group = g.chance(15) ? (int)g.range(1, 2) : 0;
     int c = (int)(g.next() % 20);
     std::string cls;
